@@ -157,6 +157,8 @@ func runMerge1(c *vkit.Case, p mPlan) {
 	consPert := vkit.NewPerturber(c.Rand, 16, p.ConsPace)
 	latePert := vkit.NewPerturber(c.Rand, 4, 1)
 	out := make(chan uint64, p.OutCap)
+	// The inputs are passed as a window into a sentinel-guarded array (argument integrity).
+	guard, ro := guardArgs(ro, func() <-chan uint64 { return make(chan uint64) })
 
 	r.Count("chans.Merge path", mergePath(n), 1)
 	if p.OutCap == 0 {
@@ -246,6 +248,15 @@ func runMerge1(c *vkit.Case, p mPlan) {
 	}
 	ret := mergeRet.Load()
 
+	// The caller's slice of inputs is untouched.
+	r.Eval(1)
+	r.Count("argument integrity checks", "chans.Merge", 1)
+	if what := guard.verify(); what != "" {
+		c.Violation("merge-argument-mutated", fmt.Sprintf("chans.Merge(out, ins...) with %d inputs (%s) changed the caller's slice of inputs: %s", n, mergePath(n), what), witness(nil))
+		cleanup(true)
+		return
+	}
+
 	// Merge returned: every input's close must have been initiated before (logical clock).
 	r.Eval(1)
 	for i := range closeCall {
@@ -285,6 +296,41 @@ func runMerge1(c *vkit.Case, p mPlan) {
 			}
 		}
 	}
+
+	// The same inputs again: every one of them is closed and drained, so a second Merge over the
+	// same slice must return having delivered nothing.
+	r.Eval(1)
+	out2 := make(chan uint64, 4)
+	var again *vkit.Panic
+	againDone := make(chan struct{})
+	go func() {
+		defer close(againDone)
+		gs.add()
+		again = vkit.Try(func() { chans.Merge(out2, ro...) })
+	}()
+	verdict, dump = vkit.Await(againDone, vkit.AwaitOpts{Relevant: gs.relevant})
+	switch verdict {
+	case vkit.AwaitStuck:
+		c.Violation("merge-again-stuck", fmt.Sprintf("a second chans.Merge over the same %d inputs (%s), all closed and drained by the first, never returned", n, mergePath(n)),
+			witness(map[string]any{"goroutines": trunc(dump, 8000), "first_call_received": showVals(gotVals)}))
+		return
+	case vkit.AwaitInconclusive:
+		r.Inconclusive(fmt.Sprintf("%s: the second chans.Merge had not returned after the hard limit but something was still runnable", c.ID()))
+		return
+	}
+	if again != nil {
+		c.Violation("merge-panic", fmt.Sprintf("a second chans.Merge over the same %d closed inputs panicked: %s", n, again.Msg), witness(map[string]any{"stack": trunc(again.Stack, 4000)}))
+		return
+	}
+	if k := len(out2); k > 0 {
+		c.Violation("unsent-value", fmt.Sprintf("a second chans.Merge over the same %d closed and drained inputs (%s) delivered %d values (first %#x)", n, mergePath(n), k, <-out2), witness(nil))
+		return
+	}
+	if what := guard.verify(); what != "" {
+		c.Violation("merge-argument-mutated", fmt.Sprintf("the second chans.Merge(out, ins...) with %d inputs (%s) changed the caller's slice of inputs: %s", n, mergePath(n), what), witness(nil))
+		return
+	}
+	r.Count("chans.Merge called again over the same closed inputs", mergePath(n), 1)
 
 	// Evidence.
 	sigIl, switches := interleaving(gotVals)
@@ -423,6 +469,7 @@ func runReplicate1(c *vkit.Case, p rPlan) {
 	for d := 0; d < nd; d++ {
 		go consumer(gs, clock, dsts[d], perts[d], &gots[d], dones[d])
 	}
+	guard, so := guardArgs(so, func() chan<- uint64 { return make(chan uint64) })
 	var repRet atomic.Int64
 	var repPanic *vkit.Panic
 	repDone := make(chan struct{})
@@ -460,6 +507,13 @@ func runReplicate1(c *vkit.Case, p rPlan) {
 		return
 	}
 	ret := repRet.Load()
+	r.Eval(1)
+	r.Count("argument integrity checks", "chans.Replicate", 1)
+	if what := guard.verify(); what != "" {
+		c.Violation("replicate-argument-mutated", fmt.Sprintf("chans.Replicate(src, dsts...) with %d destinations changed the caller's slice of destinations: %s", nd, what), witness(nil))
+		cleanup()
+		return
+	}
 	r.Eval(1)
 	if cc := closeCall.Load(); cc == 0 || cc > ret {
 		c.Violation("return-before-close", fmt.Sprintf("chans.Replicate returned (tick %d) before its source was closed (close tick %d, 0 = not yet)", ret, cc),
